@@ -66,7 +66,8 @@ def gen_plan(rng, idx):
     vanish_file = None
     for i in range(nlt):
         name = rng.choice(['d', 'x%d' % i, 'defs%d.tex' % i, 'sub/m%d.tex' % i,
-                           'gl%d.glsdefs' % i, 'a b%d' % i if False else 'ab%d' % i])
+                           'gl%d.glsdefs' % i, 'ab%d' % i, 'dä f%d.tex' % i,
+                           '../up%d' % i, 'Defs%d.TEX' % i])
         while name in ltfiles:
             name += 'x'
         kind = rng.choice(FAULT_KINDS)
